@@ -349,6 +349,73 @@ func TestParallelRender(t *testing.T) {
 	})
 }
 
+// TestLargeLayers: the uniform renderer hands a lattice layer to its workers in batches of 100 points
+// through a bounded queue; layers of more than ten thousand points (>= ~100 cells across) keep every
+// worker and the whole queue busy at once. Oracle: every mesh vertex is the zero crossing on a lattice
+// edge, so its sequentially evaluated value is at most one cell in magnitude (and at most
+// h^2/(8(R-h)) for the sphere); a repeated render returns the same mesh.
+func TestLargeLayers(t *testing.T) {
+	rec := ev.Get()
+	rapid.Check(t, func(t *rapid.T) {
+		kind := rapid.SampledFrom([]string{"sphere", "slab", "slab", "rod"}).Draw(t, "kind")
+		cells := rapid.IntRange(100, ev.Pick(170, 260)).Draw(t, "cells")
+		var s sdf.SDF3
+		R := 0.0
+		switch kind {
+		case "sphere":
+			R = g.Length(t, "R", 0.5, 5)
+			s, _ = sdf.Sphere3D(R)
+		case "slab":
+			// thin along x: few layers, each of them large
+			a := g.Length(t, "a", 1, 5)
+			s, _ = sdf.Box3D(v3.Vec{X: a * g.F(0.05, 0.2).Draw(t, "thin"), Y: a, Z: a * g.F(0.7, 1).Draw(t, "zy")}, 0)
+		default:
+			// long along x: many layers, each of them small (control: the queue never fills)
+			a := g.Length(t, "a", 1, 5)
+			s, _ = sdf.Box3D(v3.Vec{X: a, Y: a * g.F(0.05, 0.2).Draw(t, "thin"), Z: a * g.F(0.05, 0.2).Draw(t, "thin2")}, 0)
+		}
+		c := v3.Vec{X: g.Coord(t, "cx", 10), Y: g.Coord(t, "cy", 10), Z: g.Coord(t, "cz", 10)}
+		s = sdf.Transform3D(s, sdf.Translate3d(c))
+		sz := s.BoundingBox().Size()
+		h := sz.MaxComponent() / float64(cells)
+		layer := (int(sz.Y/h) + 2) * (int(sz.Z/h) + 2)
+		ts := render.ToTriangles(s, render.NewMarchingCubesUniform(cells))
+		desc := fmt.Sprintf("%s of size %v at %v, %d cells (layers of ~%d points)", kind, sz, c, cells, layer)
+		fmt.Printf("C10-CASE large-layers %s\n", desc)
+		worst := 0.0
+		seen := map[v3.Vec]bool{}
+		for _, tr := range ts {
+			for _, v := range tr {
+				if seen[v] {
+					continue
+				}
+				seen[v] = true
+				worst = math.Max(worst, math.Abs(s.Evaluate(v)))
+			}
+		}
+		bound := h * (1 + 1e-9)
+		if kind == "sphere" && R > 2*h {
+			bound = h*h/(8*(R-h)) + 1e-9*(R+c.Length())
+		}
+		if worst > bound {
+			rec.Violation(t, "C10:large-layers:vertex-off-surface", "%s: a vertex has |f| = %v, the lattice allows %v: the workers evaluated other points than the renderer asked for", desc, worst, bound)
+		}
+		if len(ts) == 0 {
+			rec.Violation(t, "C10:large-layers:empty-mesh", "%s: no triangles", desc)
+		}
+		ts2 := render.ToTriangles(s, render.NewMarchingCubesUniform(cells))
+		same := len(ts) == len(ts2)
+		for i := 0; same && i < len(ts); i++ {
+			same = *ts[i] == *ts2[i]
+		}
+		if !same {
+			rec.Violation(t, "C10:large-layers:second-render-differs", "%s: %d triangles, then %d", desc, len(ts), len(ts2))
+		}
+		rec.Case(layer > 10100, ev.Key("large", desc), "large-layers:"+kind, fmt.Sprintf("large-layers:layer>10100=%v", layer > 10100))
+		rec.Sample("large-layers:"+kind, map[string]any{"scene": desc, "triangles": len(ts), "worst_abs_f_over_h": worst / h})
+	})
+}
+
 // TestRegress: the one shape class with mutable state (an evaluation cache) hammered directly.
 func TestRegress(t *testing.T) {
 	rec := ev.Get()
